@@ -121,7 +121,7 @@ fn main() {
             get_u64(&args, "seed", 20260923),
             get_u64(&args, "run", 0),
             args.kv.get("tier").map(|t| t == "thorough").unwrap_or(false),
-            args.kv.get("schedule").map(|s| s.as_str()).unwrap_or(""),
+            get_u64(&args, "iter", 0),
         ),
         #[cfg(feature = "engine-shuttle")]
         "mt-selfcheck" => mt::cmd_mt_selfcheck(get_u64(&args, "seed", 20260923)),
@@ -181,7 +181,7 @@ fn cmd_run(a: &Args) {
         let o = execute(prop, f, seed, r, thorough, &spec0, &mut st);
         if o.violation.is_some() {
             let v0 = o.violation.clone().unwrap();
-            let (spec, best, attempts) = minimise(prop, f, seed, r, thorough, &o, 90.0);
+            let (spec, best, attempts) = minimise(prop, f, seed, r, thorough, &o, 60.0);
             // confirm determinism of the minimised replay in-process
             let mut scratch = Stats::default();
             let again = execute(prop, f, seed, r, thorough, &spec, &mut scratch);
@@ -211,9 +211,8 @@ fn cmd_run(a: &Args) {
                 ("replay", J::s(path)),
                 ("reproduced_in_process", J::Bool(reproduced)),
             ]));
-            if violations.len() >= 3 {
-                break;
-            }
+            // one minimised, replayable violation per worker is enough to fail the check
+            break;
         }
         r += sn;
     }
